@@ -44,6 +44,10 @@ class EngineError(Exception):
     pass
 
 
+class ShardSkip(BaseException):
+    """this subtree (below the sharding depth) belongs to another shard"""
+
+
 _CTX: "Ctx | None" = None
 
 
@@ -636,6 +640,7 @@ class Ctx:
         self.seed = seed
         self.notes = {}
         self.floor_memo = {}
+        self.shard = None
         if mode == "sym":
             self.solver = z3.Solver()
             self.solver.set("timeout", 2000)
@@ -672,14 +677,17 @@ class Ctx:
             self.inputs[name] = ("bool", v)
         return self.decide(v)
 
-    def choice(self, name, n):
-        """symbolic structural choice in range(n), resolved by forking"""
+    def choice(self, name, n, fixed=None):
+        """symbolic structural choice in range(n), resolved by forking (or pinned by the shard)"""
         if self.mode == "conc":
             return int(self.conc_inputs[name])
         with self._lock:
             v = z3.Int(name)
             self.inputs[name] = ("int", v)
         self.add(z3.And(v >= 0, v < n))
+        if fixed is not None:
+            self.add(v == fixed)
+            return fixed
         for i in range(n - 1):
             if self.decide(v == i):
                 return i
@@ -758,6 +766,13 @@ class Ctx:
             self.decisions.append(choice)
             self.stats.decisions += 1
             self.solver.add(cond if choice else z3.Not(cond))
+            if self.shard is not None and len(self.decisions) == self.shard[2]:
+                i, n, d = self.shard
+                bits = 0
+                for b in self.decisions:
+                    bits = (bits * 2 + (1 if b else 0)) * 1000003 % 2147483647
+                if bits % n != i:
+                    raise ShardSkip()
             return choice
 
     def assume(self, cond, note=None):
@@ -990,7 +1005,7 @@ class Result:
 
 
 def explore(harness, params=None, model="R", seed=0, witness_every=1, max_paths=None,
-            max_violations=8, twin=False, name=None):
+            max_violations=8, twin=False, name=None, shard=None):
     """exhaustive DFS over the feasible paths of harness(ctx, **params)"""
     params = params or {}
     res = Result()
@@ -1001,11 +1016,16 @@ def explore(harness, params=None, model="R", seed=0, witness_every=1, max_paths=
     while worklist:
         prefix = worklist.pop()
         c = Ctx(model=model, prefix=prefix, seed=seed, twin=twin, stats=st)
+        c.shard = shard
         activate(c)
         end = "ok"
         try:
             try:
                 harness(c, **params)
+                if shard is not None and shard[0] != 0 and len(c.decisions) < shard[2]:
+                    end = "skip"  # shallow paths are accounted for by shard 0 only
+            except ShardSkip:
+                end = "skip"
             except PathAbort:
                 end = "abort"
                 st.aborted += 1
@@ -1036,6 +1056,8 @@ def explore(harness, params=None, model="R", seed=0, witness_every=1, max_paths=
         finally:
             deactivate()
         worklist.extend(c.worklist)
+        if end == "skip":
+            continue
         if end == "ok":
             st.paths += 1
             n_done += 1
